@@ -18,7 +18,14 @@ DegenClauses(r) ==
     << <<"failure-is-exception-or-reported", r.cls \in 0..3>>,
        <<"reported-convergence-is-truthful", r.cls = 0 => r.tru <= -7000>> >>
 
+\* "own" records: one history of a builtin crs changing hands (borrowed from the user via zero_copy / owned; copy and move
+\* construction and assignment); foreign or double frees and leaks are the sanitizer's to report
+OwnClauses(r) ==
+    << <<"user-arrays-unchanged", r.intact>>,
+       <<"matrix-is-still-the-operator", r.same>>,
+       <<"ownership-follows-the-arrays", r.flags>> >>
 Clauses(r) == CASE r.k = "fill" -> FillClauses(r)
+                [] r.k = "own" -> OwnClauses(r)
                 [] r.k = "degen" -> DegenClauses(r)
                 [] OTHER -> << <<"unknown-record", FALSE>> >>
 Failed(r) == IF Has(r, "e") THEN (IF r.e = "End" THEN <<>> ELSE <<"recorder:" \o r.e>>) ELSE FailedOf(Clauses(r))
